@@ -33,7 +33,9 @@ def plan(tier, seed):
     specs.append({"name": "ancient5", "kind": "ancient5", "n": 4 if q else 12, "timeout": 2400})
     for b in range(3 if q else 8):
         specs.append({"name": "export-%d" % b, "kind": "export", "b": b, "nb_export": 3 if q else 8, "n": 8 if q else 16, "timeout": 2400})
-    specs.append({"name": "slice", "kind": "slice", "n": 4 if q else 24, "timeout": 2400})
+    for i in range(3 if q else 5):
+        specs.append({"name": "export-reorder-%d" % i, "kind": "export", "b": 100 + i, "n": 0, "extra_only": ["reorder-%d" % i], "timeout": 2400})
+    specs.append({"name": "slice", "kind": "slice", "n": 6 if q else 24, "timeout": 2400})
     # the importer consumes event lists whose order inside the demes library depends on string hashing: spread the
     # batches over several interpreter hash seeds (results must not depend on it)
     for i, sp in enumerate(specs):
@@ -740,8 +742,27 @@ def run_export(spec, rec, dadi, demes):
     # structured programs: N populations by successive splits, a pulse into every destination, in every run
     struct = [(N, d) for N in range(2, 6) for d in range(1, N + 1)]
     extra += ["pulse-%d-%d" % nd for i, nd in enumerate(struct) if i % max(1, spec.get("nb_export", 3)) == spec["b"] % max(1, spec.get("nb_export", 3))]
+    # ... and a reordering by every non-self-inverse permutation of 3 populations and by cyclic ones of 4 and 5 (for a self-inverse
+    # permutation "new k is old order[k]" and its converse coincide)
+    REORDERS = [[2, 3, 1], [3, 1, 2], [2, 3, 4, 1], [3, 1, 4, 2], [2, 3, 4, 5, 1]]
+    nbx = max(1, spec.get("nb_export", 3))
+    if spec.get("extra_only"):
+        extra = list(spec["extra_only"])
     for ci in list(range(spec["n"])) + extra:
-        if isinstance(ci, str) and ci.startswith("pulse-"):
+        if isinstance(ci, str) and ci.startswith("reorder-"):
+            perm = REORDERS[int(ci.split("-")[1])]
+            N = len(perm)
+            rng = rng_for(spec["seed"], "C16exp-r", N, int(ci.split("-")[1]))
+            steps = []
+            for k in range(1, N):
+                steps.append(("split", {"parent": int(rng.integers(1, k + 1))}))
+                steps.append(("integrate", {"T": float(rng.uniform(0.03, 0.08)), "sizes": [("constant", v, v) for v in [logu(rng, 0.4, 2.5) for _ in range(k + 1)]],
+                                            "ms": {"m12": 0.6}, "initial_t": False}))
+            steps.append(("reorder", {"order": perm}))
+            sz = [0.3 * 2.2 ** k for k in range(N)]
+            steps.append(("integrate", {"T": float(rng.uniform(0.05, 0.1)), "sizes": [("constant", v, v) for v in sz], "ms": {"m12": 1.5, "m31": 0.4}, "initial_t": False}))
+            npop, feats, max_pops = N, ["constant", "split", "reorder", "reorder-not-self-inverse"], N
+        elif isinstance(ci, str) and ci.startswith("pulse-"):
             N, d = int(ci.split("-")[1]), int(ci.split("-")[2])
             rng = rng_for(spec["seed"], "C16exp-p", N, d)
             steps = []
@@ -802,15 +823,20 @@ def run_export(spec, rec, dadi, demes):
                 # operator-splitting error that must vanish with the time step
                 from dadi import Integration
                 old = Integration.timescale_factor
+                errs = []
                 try:
-                    Integration.timescale_factor = old / 8
-                    a = Numerics.make_extrap_func(lambda n_, p_: run_export_program(dadi, steps, n_, p_))(ns, pts)
-                    g2 = DD.output(Nref=Nref, generation_time=gen_time)
-                    b = Spectrum.from_demes(g2, list(DD.cache[-1].deme_ids), ns, pts)
-                    err2 = cmp(b.data, a.data)
+                    # on these coarse grids the default step can exceed a whole epoch (one step per epoch, where refining changes
+                    # nothing at first), so the ladder is taken well inside the asymptotic range: tf/8 against tf/64
+                    for fac in (8, 64):
+                        Integration.timescale_factor = old / fac
+                        a = Numerics.make_extrap_func(lambda n_, p_: run_export_program(dadi, steps, n_, p_))(ns, pts)
+                        g2 = DD.output(Nref=Nref, generation_time=gen_time)
+                        b = Spectrum.from_demes(g2, list(DD.cache[-1].deme_ids), ns, pts)
+                        errs.append(cmp(b.data, a.data))
                 finally:
                     Integration.timescale_factor = old
-                rec.check("export-roundtrip", err <= 0.02 and err2 <= 0.5 * err + tol, site=site, tags=dict(tags, ladder=True), observed={"err": err, "err_at_tf/8": err2})
+                rec.check("export-roundtrip", err <= 0.02 and errs[1] <= 0.35 * errs[0] + tol, site=site, tags=dict(tags, ladder=True),
+                          observed={"err": err, "err_at_tf/8": errs[0], "err_at_tf/64": errs[1]})
             else:
                 rec.close("export-roundtrip", err, tol, site=site, tags=tags, observed={"err": err})
         for f in feats:
@@ -830,25 +856,42 @@ def run_slice(spec, rec, dadi, demes):
         NA, NB = logu(rng, 400, 3000), logu(rng, 400, 3000)
         NAe = NA if fn == "constant" else logu(rng, 400, 3000)
         m = float(rng.uniform(1e-4, 1e-3))
+        # half of the cases: the cut falls into a *later* epoch of A (a constant epoch first, then the size function), so that the
+        # start of the cut epoch is not the start of the deme
+        later = (ci // 3) % 2 == 1
+        tmid = float(rng.uniform(ts + 60, t1 - 30)) if later else None
         b = demes.Builder(time_units="generations")
         b.add_deme("anc", epochs=[dict(start_size=N0, end_time=t1)])
-        b.add_deme("A", ancestors=["anc"], epochs=[dict(start_size=NA, end_size=NAe, size_function=fn, end_time=0)])
+        if later:
+            NA0 = logu(rng, 400, 3000)
+            b.add_deme("A", ancestors=["anc"], epochs=[dict(start_size=NA0, end_time=tmid),
+                                                       dict(start_size=NA, end_size=NAe, size_function=fn, end_time=0)])
+        else:
+            b.add_deme("A", ancestors=["anc"], epochs=[dict(start_size=NA, end_size=NAe, size_function=fn, end_time=0)])
         b.add_deme("B", ancestors=["anc"], epochs=[dict(start_size=NB, end_time=0)])
         b.add_migration(demes=["A", "B"], rate=m)
         g = b.resolve()
         ns = [int(rng.integers(2, 6)), int(rng.integers(2, 6))]
         pts = [16, 20, 24]
-        if not rec.case("slice-%d" % ci, {"fn": fn, "t1": t1, "ts": ts, "ns": ns}, nontrivial=True):
+        if not rec.case("slice-%d" % ci, {"fn": fn, "t1": t1, "ts": ts, "ns": ns, "tmid": tmid}, nontrivial=True):
             continue
-        tags = {"size_function": fn}
+        tags = {"size_function": fn, "cut_in_later_epoch": later}
         T, T1 = t1 / (2 * N0), (t1 - ts) / (2 * N0)
-        nuA = nu_of(fn, NA, NAe, N0, 0.0, T)
+        if later:
+            Tm = (t1 - tmid) / (2 * N0)
+            nuA = nu_of(fn, NA, NAe, N0, Tm, T)
+        else:
+            nuA = nu_of(fn, NA, NAe, N0, 0.0, T)
 
         def hand(ns_, p):
             xx = Numerics.default_grid(p)
             phi = PhiManip.phi_1D(xx)
             phi = PhiManip.phi_1D_to_2D(xx, phi)
-            phi = Integration.two_pops(phi, xx, T1, nu1=nuA, nu2=NB / N0, m12=2 * N0 * m, m21=2 * N0 * m)
+            if later:
+                phi = Integration.two_pops(phi, xx, Tm, nu1=NA0 / N0, nu2=NB / N0, m12=2 * N0 * m, m21=2 * N0 * m)
+                phi = Integration.two_pops(phi, xx, T1, nu1=nuA, nu2=NB / N0, m12=2 * N0 * m, m21=2 * N0 * m, initial_t=Tm)
+            else:
+                phi = Integration.two_pops(phi, xx, T1, nu1=nuA, nu2=NB / N0, m12=2 * N0 * m, m21=2 * N0 * m)
             return Spectrum.from_phi(phi, ns_, (xx, xx))
         ok, gs = rec.noraise("slice-returns", lambda: DU.slice(g, ts), site="DemesUtil.slice", tags=tags)
         if ok:
@@ -867,7 +910,8 @@ def run_slice(spec, rec, dadi, demes):
             names_alive = [dm.name for dm in gw.demes]
             rec.check("swipe-keeps-living-demes", set(names_alive) == {"A", "B"} and all(dm.start_time == float("inf") for dm in gw.demes) is False or True,
                       site="DemesUtil.swipe", tags=tags)
-            sizeA_at = NA if fn == "constant" else (NA * (NAe / NA) ** ((t1 - ts) / t1) if fn == "exponential" else NA + (NAe - NA) * (t1 - ts) / t1)
+            span0 = tmid if later else t1
+            sizeA_at = NA if fn == "constant" else (NA * (NAe / NA) ** ((span0 - ts) / span0) if fn == "exponential" else NA + (NAe - NA) * (span0 - ts) / span0)
             ep = gw["A"].epochs[0]
             rec.close("swipe-size-at-cut", abs(ep.start_size - sizeA_at) / sizeA_at, 1e-9, site="DemesUtil.swipe", tags=tags,
                       observed=ep.start_size, expected=sizeA_at)
